@@ -7,7 +7,9 @@ import copy
 from hypothesis import strategies as st
 
 from job_shop_lib import JobShopInstance, Schedule, ScheduledOperation
+from job_shop_lib.constraint_programming import ORToolsSolver
 from job_shop_lib.dispatching import Dispatcher
+from job_shop_lib.dispatching.rules import DispatchingRuleSolver
 
 from .. import gen
 from .. import fingerprint as fp
@@ -25,7 +27,12 @@ RULE = (
     "all operations and scheduled operations of these, instances built with "
     "set_operation_attributes=False from the same flat operation sequence "
     "split in two ways, an instance whose operations were hashed before it "
-    "was built, plus None / int / tuple. Oracle over all ordered pairs and all equal triples: == is "
+    "was built, the same schedule content reached through other library paths "
+    "(Schedule.from_dict of the JSON text, from_job_sequences, the schedule "
+    "returned by DispatchingRuleSolver and by CP-SAT each next to a twin "
+    "rebuilt by hand on the independent copy), an instance made by "
+    "GeneralInstanceGenerator next to twins built by hand and from JSON, "
+    "plus None / int / tuple. Oracle over all ordered pairs and all equal triples: == is "
     "reflexive, symmetric, transitive; True when the strict content "
     "fingerprints are equal (independently built, same content); False when "
     "machines (as sets), durations, job / position, job structure, start time "
@@ -61,6 +68,7 @@ def strategy(tier):
             "h1": gen.histories(max_len=12),
             "h2": gen.histories(max_len=12),
             "delta": st.integers(1, 4),
+            "gen": st.tuples(st.integers(0, 10**4), st.integers(0, 2)).map(list),
         }
     )
 
@@ -200,8 +208,41 @@ def check_case(case, ctx):
     )
     schedules.append(("S-delayed", delayed))
     schedules.append(("S-empty", Schedule(base)))
+    # the same content reached through other library paths: the dictionary
+    # form / job sequences of a dispatcher-built schedule, and schedules
+    # returned by the solvers next to twins rebuilt by hand on the copy
+    import json
+
+    flexible = any(len(ms) > 1 for row in inst["machines"] for ms in row)
+    huge = max(dd for row in inst["durations"] for dd in row) > 10**6
+
+    def by_hand(sched, target):
+        return Schedule(
+            target,
+            [
+                [
+                    ScheduledOperation(
+                        target.jobs[x.operation.job_id][x.operation.position_in_job], int(x.start_time), int(x.machine_id)
+                    )
+                    for x in lst
+                ]
+                for lst in sched.schedule
+            ],
+        )
+
+    if not flexible:
+        schedules.append(("S-from_dict(json)", Schedule.from_dict(**json.loads(json.dumps(s0.to_dict())))))
+        schedules.append(("S-from_job_sequences", Schedule.from_job_sequences(copy1, [[x.operation.job_id for x in lst] for lst in s0.schedule])))
+    rule_sched = DispatchingRuleSolver()(base)
+    schedules.append(("S-rule-solver", rule_sched))
+    schedules.append(("S-rule-solver-by-hand", by_hand(rule_sched, copy1)))
+    if not flexible and not huge and case["delta"] % 2 == 0:
+        cp_sched = ORToolsSolver(max_time_in_seconds=30.0)(base)
+        schedules.append(("S-cp-sat", cp_sched))
+        schedules.append(("S-cp-sat-by-hand", by_hand(cp_sched, copy1)))
+        ctx.label("cp_sat_schedule")
     pool += schedules
-    for label, s in schedules[:4] + [schedules[-2]]:
+    for label, s in schedules[:4] + [x for x in schedules if x[0] in ("S-delayed", "S-cp-sat", "S-cp-sat-by-hand", "S-rule-solver")]:
         for lst in s.schedule:
             for x in lst[:3]:
                 pool.append((label + "-sop", x))
@@ -262,6 +303,29 @@ def check_case(case, ctx):
     pool.append(("I-slotted-ops-longer", JobShopInstance(longer, name=inst["name"])))
     for o in sub_inst.jobs[0][:2]:
         pool.append(("I-slotted-ops-op", o))
+    # an instance made by the library's generator next to twins built by
+    # hand and from the JSON text of its dictionary form
+    from job_shop_lib.generation import GeneralInstanceGenerator
+
+    g_seed, g_flex = case.get("gen", [0, 0])
+    generated = GeneralInstanceGenerator(
+        num_jobs=(2, 3),
+        num_machines=(2, 3),
+        duration_range=(1, 9),
+        machines_per_operation=(1, 2) if g_flex == 1 else (2, 2) if g_flex == 2 else 1,
+        allow_recirculation=bool(g_seed % 2),
+        seed=g_seed,
+    ).generate()
+    twin = JobShopInstance(
+        [[_Op([int(x) for x in o.machines], int(o.duration)) for o in job] for job in generated.jobs],
+        name=generated.name,
+    )
+    pool.append(("G-generated", generated))
+    pool.append(("G-by-hand", twin))
+    pool.append(("G-from-json", JobShopInstance.from_matrices(**json.loads(json.dumps(generated.to_dict())))))
+    for label, i in pool[-3:]:
+        for o in i.jobs[0][:2] + i.jobs[-1][-1:]:
+            pool.append((label + "-op", o))
     # operations never attached to an instance
     pool.append(("loose-op-a", _Op([0], 3)))
     pool.append(("loose-op-b", _Op([0], 3)))
